@@ -63,6 +63,30 @@ def rule_find_and_delete(ctx, repo):
                  | {n.func.value.id for n in ast.walk(loop) if isinstance(n, ast.Call) and isinstance(n.func, ast.Attribute)
                     and n.func.attr in ('append', 'extend') and isinstance(n.func.value, ast.Name)})
 
+    # the pieces kept are cut at token starts: every slice of the script that goes into the result is bounded by the
+    # position raw_iter() yields (or a copy of an earlier one); an end computed from the opcode and the data length
+    # re-derives the tokeniser's extents and is not decided here
+    idx_names = set()
+    if isinstance(loop.target, ast.Tuple) and len(loop.target.elts) == 3 and isinstance(loop.target.elts[2], ast.Name):
+        idx_names.add(loop.target.elts[2].id)
+    for _ in range(3):
+        for n in walk_no_nested(fi.node):
+            if isinstance(n, ast.Assign) and all(isinstance(t, ast.Name) for t in n.targets):
+                vals = n.value.elts if isinstance(n.value, ast.Tuple) else [n.value]
+                if all((isinstance(v, ast.Name) and v.id in idx_names) or (isinstance(v, ast.Constant) and v.value == 0) for v in vals):
+                    idx_names.update(t.id for t in n.targets)
+    for n in walk_no_nested(fi.node):
+        if isinstance(n, ast.Subscript) and norm(n.value) == script and isinstance(n.slice, ast.Slice):
+            par = getattr(n, '_parent', None)
+            feeds = isinstance(par, ast.AugAssign) or (isinstance(par, ast.Call) and isinstance(par.func, ast.Attribute) and par.func.attr in ('append', 'extend')) \
+                or isinstance(par, (ast.BinOp, ast.Return))
+            if not feeds:
+                continue
+            for b_ in (n.slice.lower, n.slice.upper):
+                if b_ is None or (isinstance(b_, ast.Name) and b_.id in idx_names):
+                    continue
+                r.undecided('piece-bounds:%s' % norm(n)[:40], common.site_of(fi, n), 'the kept piece `%s` is not cut at positions yielded by raw_iter(): `%s` re-derives a token extent' % (norm(n), norm(b_)))
+
     def gen(stmt, facts):
         if stmt is loop:
             return facts  # facts at loop entry; 'walked' is added after the loop by the wrapper below
@@ -114,9 +138,9 @@ def rule_table(ctx, repo, lg):
             continue
         want = lg.reference(ht, on, oo)
         bad = compare(lg, S, result, want)
-        if bad and _opaque(result):
+        if bad and bad.startswith('UND:'):
             # a value the interpreter could not reduce: what it is was not decided, so neither is the row
-            g['und'].append((ht, bad))
+            g['und'].append((ht, bad[4:]))
         elif bad:
             g['bad'].append((ht, bad))
     site = lg.fi.site
@@ -151,14 +175,14 @@ def compare(lg, S, result, want):
     val, err = result
     if want == 'const-one':
         if val != ('const', HASH_ONE):
-            return 'must return the historical constant 1 (01 00..00) but returns %r' % (val,)
+            return ('UND:' if _opaque(val) else '') + 'must return the historical constant 1 (01 00..00) but returns %r' % (val,)
         if err != 'error':
             return 'the constant-1 case must carry an error indication, got %s' % err
         return None
     if err != 'none':
         return 'a regular digest must be returned with a None error, got %s' % err
     if not (val and val[0] == 'hash' and val[1] and val[1][0] == 'ser'):
-        return 'returns %r, not Hash(serialize(scratch) || hashtype)' % (val,)
+        return ('UND:' if val and val[0] == 'expr' else '') + 'returns %r, not Hash(serialize(scratch) || hashtype)' % (val,)
     els = val[1][1]
     if len(els) != 2 or els[0][0] != 'scratch' or els[1][0] != 'int':
         return 'digest input is %r, not serialize(scratch) followed by the 4-byte hash type' % (els,)
